@@ -178,7 +178,7 @@ pub fn run(args: &Args) -> i32 {
     let tier = args.tier;
     let mut rep = Report::new("C14", tier, "exploration");
     let findings: Mutex<Findings> = Mutex::new(Findings::new());
-    let lists = object_lists(if tier == Tier::Thorough { 3 } else { 2 });
+    let lists = object_lists(if tier == Tier::Thorough { 4 } else { 3 });
     let mut units = vec![];
     for v6 in [false, true] {
         for ext in [true, false] {
@@ -408,7 +408,7 @@ pub fn run(args: &Args) -> i32 {
     rep.set("object_lists", json!(lists.len()));
     rep.set("units", json!(units.len()));
     rep.observe("distinct_rfc4884_length_attribute_values", json!(c.3.len()));
-    rep.set("rule", json!("{v4,v6} x {TimeExceeded, DestinationUnreachable} x parse mode {on,off} x protocol {icmp, udp/dublin, tcp} x layout {RFC 4884 compliant, legacy 128} x every quoted-prefix length giving a distinct length attribute (plus unaligned neighbours) x all object lists of length <= 2 (quick) / 3 (thorough) over 9 object shapes (MPLS depth 1-3 with boundary label/EXP/S/TTL, incl. a last entry without the S bit and an S bit before the end of the object; an empty stack - RFC 4950 requires at least one entry - belongs to the corruptions, classes 2,3,255, sizes 4/8/12); oracle: views return the original-datagram field and the extension structure byte-exactly, recv_probe reports exactly the encoded objects in order. Corruptions of a subset: every truncation point and all 256 values of the length attribute, of every object-length octet and of the version octet: no panic, iteration under ceiling, payload/extension inside the message and disjoint. Non-trivial = message carries >= 1 object, or is a corruption"));
+    rep.set("rule", json!("{v4,v6} x {TimeExceeded, DestinationUnreachable} x parse mode {on,off} x protocol {icmp, udp/dublin, tcp} x layout {RFC 4884 compliant, legacy 128} x every quoted-prefix length giving a distinct length attribute (plus unaligned neighbours) x all object lists of length <= 3 (quick) / 4 (thorough) over 9 object shapes (MPLS depth 1-3 with boundary label/EXP/S/TTL, incl. a last entry without the S bit and an S bit before the end of the object; an empty stack - RFC 4950 requires at least one entry - belongs to the corruptions, classes 2,3,255, sizes 4/8/12); oracle: views return the original-datagram field and the extension structure byte-exactly, recv_probe reports exactly the encoded objects in order. Corruptions of a subset: every truncation point and all 256 values of the length attribute, of every object-length octet and of the version octet: no panic, iteration under ceiling, payload/extension inside the message and disjoint. Non-trivial = message carries >= 1 object, or is a corruption"));
     rep.sample(json!({"unit": "udp/v6/dublin TE compliant", "quoted_octets": 136, "objects": "[Mpls(depth 2), Other(class 2)]"}));
     rep.assumptions = vec!["MPLS stacks of the conformant half have >= 1 member and S=1 exactly on the last (RFC 4950); padding is part of the original-datagram field (DESIGN.md 5.11)".into()];
     rep.finish()
